@@ -37,6 +37,9 @@ def install_coop_locks():
             mod.threading = shim
 
 
+SKIPPED = []
+
+
 def scenarios():
     import passlib.context as pc
     import passlib.utils.binary as pb
@@ -51,106 +54,129 @@ def scenarios():
     sha_h = legacycrypt.crypt("pw", "$5$rounds=1000$abcdefgh$")
 
     def codes(*fns):
-        return [getattr(f, "__func__", f).__code__ for f in fns]
+        return [getattr(f, "__func__", f).__code__ for f in fns if f is not None and hasattr(getattr(f, "__func__", f), "__code__")]
 
-    # A: LazyCryptContext without onload
-    def mk_lazy():
-        ctx = pc.LazyCryptContext(schemes=["md5_crypt", "des_crypt"], deprecated=["des_crypt"])
-        return [lambda: ctx.identify(md5h), lambda: (ctx.default_scheme(), ctx.needs_update("abJnggxhB/yWI"))]
-    out.append(dict(name="LazyCryptContext", lazy=True, make=mk_lazy, expected=["md5_crypt", ("md5_crypt", True)],
-                    code=codes(pc.LazyCryptContext.__getattribute__, pc.LazyCryptContext._lazy_init, pc.CryptContext.__init__, pc.CryptContext.load),
-                    init_names=("_lazy_init",)))
+    def A(owner, name):
+        """an internal function by name - None when a refactoring removed or renamed it (then it simply is no yield region)"""
+        return owner.__dict__.get(name) if isinstance(owner, type) and name in owner.__dict__ else getattr(owner, name, None)
 
-    # B: with an onload callback that rewrites the arguments
-    def onload(flavour=None):
-        return dict(schemes=["sha256_crypt", "md5_crypt"], default="md5_crypt" if flavour == "legacy" else "sha256_crypt")
+    try:
+        # A: LazyCryptContext without onload
+        def mk_lazy():
+            ctx = pc.LazyCryptContext(schemes=["md5_crypt", "des_crypt"], deprecated=["des_crypt"])
+            return [lambda: ctx.identify(md5h), lambda: (ctx.default_scheme(), ctx.needs_update("abJnggxhB/yWI"))]
+        out.append(dict(name="LazyCryptContext", lazy=True, make=mk_lazy, expected=["md5_crypt", ("md5_crypt", True)],
+                        code=codes(A(pc.LazyCryptContext, "__getattribute__"), A(pc.LazyCryptContext, "_lazy_init"), pc.CryptContext.__init__, pc.CryptContext.load),
+                        init_names=("_lazy_init",)))
+    except (AttributeError, ImportError, KeyError) as ex:      # an internal name this scenario leans on is gone: not schedule-explored
+        SKIPPED.append(f"scenario 'A: LazyCryptContext without onload' not built: {type(ex).__name__}: {ex}")
+    try:
+        # B: with an onload callback that rewrites the arguments
+        def onload(flavour=None):
+            return dict(schemes=["sha256_crypt", "md5_crypt"], default="md5_crypt" if flavour == "legacy" else "sha256_crypt")
 
-    def mk_lazy_onload():
-        ctx = pc.LazyCryptContext(onload=onload, flavour="legacy")
-        return [lambda: ctx.default_scheme(), lambda: ctx.verify("pw", md5h)]
-    out.append(dict(name="LazyCryptContext+onload", lazy=True, make=mk_lazy_onload, expected=["md5_crypt", True],
-                    code=codes(pc.LazyCryptContext.__getattribute__, pc.LazyCryptContext._lazy_init, pc.CryptContext.__init__, pc.CryptContext.load, onload),
-                    init_names=("_lazy_init",)))
+        def mk_lazy_onload():
+            ctx = pc.LazyCryptContext(onload=onload, flavour="legacy")
+            return [lambda: ctx.default_scheme(), lambda: ctx.verify("pw", md5h)]
+        out.append(dict(name="LazyCryptContext+onload", lazy=True, make=mk_lazy_onload, expected=["md5_crypt", True],
+                        code=codes(A(pc.LazyCryptContext, "__getattribute__"), A(pc.LazyCryptContext, "_lazy_init"), pc.CryptContext.__init__, pc.CryptContext.load, onload),
+                        init_names=("_lazy_init",)))
+    except (AttributeError, ImportError, KeyError) as ex:      # an internal name this scenario leans on is gone: not schedule-explored
+        SKIPPED.append(f"scenario 'B: with an onload callback that rewrites the arguments' not built: {type(ex).__name__}: {ex}")
+    try:
+        # C: lazily built base64 engine
+        def mk_b64():
+            eng = pb.LazyBase64Engine(pb.HASH64_CHARS)
+            return [lambda: eng.encode_bytes(b"ab"), lambda: eng.decode_bytes(b"V74")]
+        out.append(dict(name="LazyBase64Engine", lazy=True, make=mk_b64, expected=[b"V74", b"ab"],
+                        code=codes(A(pb.LazyBase64Engine, "__getattribute__"), A(pb.LazyBase64Engine, "_lazy_init"), pb.Base64Engine.__init__),
+                        init_names=("_lazy_init",)))
+    except (AttributeError, ImportError, KeyError) as ex:      # an internal name this scenario leans on is gone: not schedule-explored
+        SKIPPED.append(f"scenario 'C: lazily built base64 engine' not built: {type(ex).__name__}: {ex}")
+    try:
+        # D: fresh multi-backend hashers picking their backend on the first hash
+        def mk_backend(base, h):
+            def make():
+                Hc = base.using()            # fresh class: nothing loaded on it (the global class is never used here)
+                return [lambda: Hc.verify("pw", h), lambda: Hc.verify("px", h)]
+            return make
+        bcode = codes(uh.BackendMixin.set_backend, A(uh.BackendMixin, "_set_backend"), A(uh.BackendMixin, "_stub_requires_backend"), uh.BackendMixin.get_backend,
+                      A(uh.HasManyBackends, "_calc_checksum_backend"), A(uh.HasManyBackends, "_calc_checksum"), A(uh.HasManyBackends, "_set_calc_checksum_backend"),
+                      A(uh.HasManyBackends, "_get_backend_loader"))
+        for nm, base, h in (("md5_crypt", H.md5_crypt, md5h), ("sha256_crypt", H.sha256_crypt, sha_h)):
+            loaders = [getattr(base, a) for a in ("_load_backend_os_crypt", "_load_backend_builtin") if hasattr(base, a)]
+            out.append(dict(name=f"backend-stub:{nm}", lazy=False, make=mk_backend(base, h), expected=[True, False], code=bcode + codes(*loaders),
+                            init_names=()))
+    except (AttributeError, ImportError, KeyError) as ex:      # an internal name this scenario leans on is gone: not schedule-explored
+        SKIPPED.append(f"scenario 'D: fresh multi-backend hashers picking their backend on the first hash' not built: {type(ex).__name__}: {ex}")
+    try:
+        # E: an unloaded registry name through both access paths
+        def mk_reg():
+            reg._unload_handler_name("phpass", locations=False)
 
-    # C: lazily built base64 engine
-    def mk_b64():
-        eng = pb.LazyBase64Engine(pb.HASH64_CHARS)
-        return [lambda: eng.encode_bytes(b"ab"), lambda: eng.decode_bytes(b"V74")]
-    out.append(dict(name="LazyBase64Engine", lazy=True, make=mk_b64, expected=[b"V74", b"ab"],
-                    code=codes(pb.LazyBase64Engine.__getattribute__, pb.LazyBase64Engine._lazy_init, pb.Base64Engine.__init__),
-                    init_names=("_lazy_init",)))
+            def a():
+                o = reg.get_crypt_handler("phpass")
+                return (o.name, o is reg.get_crypt_handler("phpass"))
 
-    # D: fresh multi-backend hashers picking their backend on the first hash
-    def mk_backend(base, h):
-        def make():
-            Hc = base.using()            # fresh class: nothing loaded on it (the global class is never used here)
-            return [lambda: Hc.verify("pw", h), lambda: Hc.verify("px", h)]
-        return make
-    bcode = codes(uh.BackendMixin.set_backend, uh.BackendMixin._set_backend, uh.BackendMixin._stub_requires_backend, uh.BackendMixin.get_backend,
-                  uh.HasManyBackends._calc_checksum_backend, uh.HasManyBackends._calc_checksum, uh.HasManyBackends._set_calc_checksum_backend,
-                  uh.HasManyBackends._get_backend_loader)
-    for nm, base, h in (("md5_crypt", H.md5_crypt, md5h), ("sha256_crypt", H.sha256_crypt, sha_h)):
-        loaders = [getattr(base, a) for a in ("_load_backend_os_crypt", "_load_backend_builtin") if hasattr(base, a)]
-        out.append(dict(name=f"backend-stub:{nm}", lazy=False, make=mk_backend(base, h), expected=[True, False], code=bcode + codes(*loaders),
+            def b():
+                o = getattr(H, "phpass")
+                return (o.name, o is reg.get_crypt_handler("phpass"))
+            return [a, b]
+        out.append(dict(name="registry", lazy=False, make=mk_reg, expected=[("phpass", True), ("phpass", True)],
+                        code=codes(reg.get_crypt_handler, reg.register_crypt_handler), init_names=()))
+    except (AttributeError, ImportError, KeyError) as ex:      # an internal name this scenario leans on is gone: not schedule-explored
+        SKIPPED.append(f"scenario 'E: an unloaded registry name through both access paths' not built: {type(ex).__name__}: {ex}")
+    try:
+        # F: a fresh (non-lazy) context: the per-category record lists are built on the first identify/verify
+        def mk_ctx_first():
+            ctx = pc.CryptContext(schemes=["des_crypt", "md5_crypt", "sha256_crypt"])
+            return [lambda: ctx.verify("pw", sha_h), lambda: (ctx.identify(md5h), ctx.verify("pw", sha_h))]
+        cfg = getattr(pc, "_CryptConfig", None)
+        out.append(dict(name="context-first-identify", lazy=False, make=mk_ctx_first, expected=[True, ("md5_crypt", True)],
+                        code=codes(*[getattr(cfg, a) for a in ("_get_record_list", "identify_record", "get_record", "_get_record_options_with_flag") if hasattr(cfg, a)]),
                         init_names=()))
+    except (AttributeError, ImportError, KeyError) as ex:      # an internal name this scenario leans on is gone: not schedule-explored
+        SKIPPED.append(f"scenario 'F: a fresh (non-lazy) context: the per-category record lists are built on the first identify/verify' not built: {type(ex).__name__}: {ex}")
+    try:
+        # G: first hash on a fresh multi-backend hasher while another thread only asks about backends
+        def mk_backend_query(base, h, query):
+            def make():
+                Hc = base.using()
+                q = {"has": lambda: Hc.has_backend("builtin"), "get": lambda: Hc.get_backend() in Hc.backends, "has-any": lambda: Hc.has_backend()}[query]
+                return [lambda: Hc.verify("pw", h), q]
+            return make
+        qcode = bcode + codes(uh.BackendMixin.has_backend)
+        for query in ("has", "get", "has-any"):
+            out.append(dict(name=f"backend-stub+{query}:md5_crypt", lazy=False, make=mk_backend_query(H.md5_crypt, md5h, query), expected=[True, True], code=qcode, init_names=()))
+    except (AttributeError, ImportError, KeyError) as ex:      # an internal name this scenario leans on is gone: not schedule-explored
+        SKIPPED.append(f"scenario 'G: first hash on a fresh multi-backend hasher while another thread only asks about backends' not built: {type(ex).__name__}: {ex}")
+    try:
+        # H: the DES tables are built on the first block operation
+        import passlib.crypto.des as pdes
+        if hasattr(pdes, "_load_tables"):
+            tabs = [n for n in ("PCXROT", "IE3264", "SPE", "CF6464") if hasattr(pdes, n)]
 
-    # E: an unloaded registry name through both access paths
-    def mk_reg():
-        reg._unload_handler_name("phpass", locations=False)
+            def mk_des():
+                for n in tabs:
+                    setattr(pdes, n, None)
+                return [lambda: pdes.des_encrypt_int_block(0x133457799BBCDFF1, 0x0123456789ABCDEF), lambda: pdes.des_encrypt_int_block(0, 0, 5, 2)]
+            want = [pdes.des_encrypt_int_block(0x133457799BBCDFF1, 0x0123456789ABCDEF), pdes.des_encrypt_int_block(0, 0, 5, 2)]
+            out.append(dict(name="des-tables", lazy=False, make=mk_des, expected=want, code=codes(A(pdes, "_load_tables"), pdes.des_encrypt_int_block), init_names=()))
+    except (AttributeError, ImportError, KeyError) as ex:      # an internal name this scenario leans on is gone: not schedule-explored
+        SKIPPED.append(f"scenario 'H: the DES tables are built on the first block operation' not built: {type(ex).__name__}: {ex}")
+    try:
+        # I: digest lookups cache their result on first use
+        import passlib.crypto.digest as pdig
 
-        def a():
-            o = reg.get_crypt_handler("phpass")
-            return (o.name, o is reg.get_crypt_handler("phpass"))
-
-        def b():
-            o = getattr(H, "phpass")
-            return (o.name, o is reg.get_crypt_handler("phpass"))
-        return [a, b]
-    out.append(dict(name="registry", lazy=False, make=mk_reg, expected=[("phpass", True), ("phpass", True)],
-                    code=codes(reg.get_crypt_handler, reg.register_crypt_handler), init_names=()))
-
-    # F: a fresh (non-lazy) context: the per-category record lists are built on the first identify/verify
-    def mk_ctx_first():
-        ctx = pc.CryptContext(schemes=["des_crypt", "md5_crypt", "sha256_crypt"])
-        return [lambda: ctx.verify("pw", sha_h), lambda: (ctx.identify(md5h), ctx.verify("pw", sha_h))]
-    cfg = pc._CryptConfig
-    out.append(dict(name="context-first-identify", lazy=False, make=mk_ctx_first, expected=[True, ("md5_crypt", True)],
-                    code=codes(*[getattr(cfg, a) for a in ("_get_record_list", "identify_record", "get_record", "_get_record_options_with_flag") if hasattr(cfg, a)]),
-                    init_names=()))
-
-    # G: first hash on a fresh multi-backend hasher while another thread only asks about backends
-    def mk_backend_query(base, h, query):
-        def make():
-            Hc = base.using()
-            q = {"has": lambda: Hc.has_backend("builtin"), "get": lambda: Hc.get_backend() in Hc.backends, "has-any": lambda: Hc.has_backend()}[query]
-            return [lambda: Hc.verify("pw", h), q]
-        return make
-    qcode = bcode + codes(uh.BackendMixin.has_backend)
-    for query in ("has", "get", "has-any"):
-        out.append(dict(name=f"backend-stub+{query}:md5_crypt", lazy=False, make=mk_backend_query(H.md5_crypt, md5h, query), expected=[True, True], code=qcode, init_names=()))
-
-    # H: the DES tables are built on the first block operation
-    import passlib.crypto.des as pdes
-    if hasattr(pdes, "_load_tables"):
-        tabs = [n for n in ("PCXROT", "IE3264", "SPE", "CF6464") if hasattr(pdes, n)]
-
-        def mk_des():
-            for n in tabs:
-                setattr(pdes, n, None)
-            return [lambda: pdes.des_encrypt_int_block(0x133457799BBCDFF1, 0x0123456789ABCDEF), lambda: pdes.des_encrypt_int_block(0, 0, 5, 2)]
-        want = [pdes.des_encrypt_int_block(0x133457799BBCDFF1, 0x0123456789ABCDEF), pdes.des_encrypt_int_block(0, 0, 5, 2)]
-        out.append(dict(name="des-tables", lazy=False, make=mk_des, expected=want, code=codes(pdes._load_tables, pdes.des_encrypt_int_block), init_names=()))
-
-    # I: digest lookups cache their result on first use
-    import passlib.crypto.digest as pdig
-
-    def mk_lookup():
-        try:
-            pdig.lookup_hash.clear_cache()
-        except Exception:
-            pass
-        return [lambda: pdig.lookup_hash("sha256").digest_size, lambda: pdig.lookup_hash("sha256").name]
-    out.append(dict(name="lookup_hash", lazy=False, make=mk_lookup, expected=[32, "sha256"], code=codes(pdig.lookup_hash, pdig.HashInfo.__init__), init_names=()))
+        def mk_lookup():
+            try:
+                pdig.lookup_hash.clear_cache()
+            except Exception:
+                pass
+            return [lambda: pdig.lookup_hash("sha256").digest_size, lambda: pdig.lookup_hash("sha256").name]
+        out.append(dict(name="lookup_hash", lazy=False, make=mk_lookup, expected=[32, "sha256"], code=codes(pdig.lookup_hash, pdig.HashInfo.__init__), init_names=()))
+    except (AttributeError, ImportError, KeyError) as ex:      # an internal name this scenario leans on is gone: not schedule-explored
+        SKIPPED.append(f"scenario 'I: digest lookups cache their result on first use' not built: {type(ex).__name__}: {ex}")
     return out
 
 
@@ -252,6 +278,7 @@ def run(chk):
         finally:
             sched.uninstrument()
     chk.traces += total
+    chk.uncovered += SKIPPED
     # 3. I->S: validate the projected runs against the Locked protocol
     wd = VERIF / "out" / "work" / "C19_trace_in"
     wd.mkdir(parents=True, exist_ok=True)
